@@ -34,9 +34,10 @@ Definition sfacf (f : sfac) : N -> N * N :=
   | FToggle b => fun s => if N.testbit s b then (0%N, N.shiftl 1 b) else (N.shiftl 1 b, 0%N)
   | FKeep mask => fun s => (0%N, N.ldiff s mask)
   end.
-Inductive sopx := OApply (m : N * N) | OCompute (f : sfac) | OReplace (e : N).
-Definition sopf (o : sopx) : sop :=
-  match o with OApply m => SApply m | OCompute f => SCompute (sfacf f) | OReplace e => SReplace e end.
+Inductive sopx := OApply (m : N * N) | OCompute (f : sfac) | OReplace (e : N) | ODecode (e : N).
+Definition scallN (o : sopx) : scall :=
+  match o with OApply m => KApply m | OCompute f => KCompute (sfacf f) | OReplace e => KReplace e | ODecode e => KDecode e end.
+Definition sopf (o : sopx) : sop := scall_op (scallN o).
 
 (* ---- subscription variants: what the script's callbacks record, as (N * N) events ---- *)
 Inductive cnd := CAll | CNewGe (k : N) | CNewNz | CPrevNz.
@@ -205,4 +206,10 @@ Proof. vm_compute. reflexivity. Qed.
 Example api_withelements_smoke2 :   (* adjacent teardowns are merged: 3000,1 then 3000,4 = 3000,5 *)
   agree (SApi 3%N [Subscribe 0 false; Write (OApply (4, 0)%N); Write (OApply (0, 1)%N); Unsub 0]
               [SwWith 5%N] [[(2000,5);(3000,5)]]%N [(4,0);(0,1)]%N 6%N) = true.
+Proof. vm_compute. reflexivity. Qed.
+
+(* Decode on a live set is a write like any other (fix a05beeb): {0,1}, a subscriber, Decode(enc{1,2}) *)
+Example api_decode_on_live_set :
+  agree (SApi 3%N [Subscribe 0 false; Write (ODecode 6%N); Write (ODecode 6%N)] [SwPlain]
+              [[(3,0);(4,0)]]%N [(4,0);(0,0)]%N 7%N) = true.
 Proof. vm_compute. reflexivity. Qed.
